@@ -42,6 +42,10 @@ Proof. exact vcmp_lt_prec. Qed.
 (** sorting, max and min are consistent with the order *)
 Theorem C04_sorted : forall l, Permutation l (vsort l) /\ StronglySorted vleP (vsort l).
 Proof. intro l. split; [apply vsort_perm | apply vsort_strongly_sorted]. Qed.
+(** ... and the sorted order is unique up to precedence-equality: ANY sorted permutation of a list agrees with [vsort], position by
+    position, up to [vcmp = Eq] (so the statement does not depend on which sorting algorithm the library uses) *)
+Theorem C04_sort_canonical : forall l l', Permutation l l' -> StronglySorted vleP l' -> Forall2 (fun a b => vcmp a b = Eq) l' (vsort l).
+Proof. exact sort_canonical. Qed.
 Theorem C04_max : forall l m, iter_max l = Some m -> In m l /\ forall y, In y l -> vcmp y m <> Gt.
 Proof. exact iter_max_spec. Qed.
 Theorem C04_min : forall l m, iter_min l = Some m -> In m l /\ forall y, In y l -> vcmp m y <> Gt.
@@ -80,6 +84,7 @@ Check C04_build : forall a b x y,
   hash_key (with_build a x) = hash_key a.
 Check C04_spec : forall a b, vcmp a b = Lt <-> prec_lt a b.
 Check C04_sorted : forall l, Permutation l (vsort l) /\ StronglySorted vleP (vsort l).
+Check C04_sort_canonical : forall l l', Permutation l l' -> StronglySorted vleP l' -> Forall2 (fun a b => vcmp a b = Eq) l' (vsort l).
 Check C04_max : forall l m, iter_max l = Some m -> In m l /\ forall y, In y l -> vcmp y m <> Gt.
 Check C04_min : forall l m, iter_min l = Some m -> In m l /\ forall y, In y l -> vcmp m y <> Gt.
 Check C04_max_none : forall l, iter_max l = None <-> l = [].
@@ -96,6 +101,7 @@ Print Assumptions C04_hash.
 Print Assumptions C04_build.
 Print Assumptions C04_spec.
 Print Assumptions C04_sorted.
+Print Assumptions C04_sort_canonical.
 Print Assumptions C04_max.
 Print Assumptions C04_min.
 Print Assumptions C04_max_none.
